@@ -291,7 +291,7 @@ def check(ctx, report):
             if tmpl is None:
                 continue
             report.count('C14.R5')
-            if not (isinstance(tmpl, ast.Constant) and isinstance(tmpl.value, str)):
+            if not literal_template(tmpl, f.node):
                 report.add('C14.R5', '%s@template[%s]' % (f.construct, ast.unparse(tmpl)[:40]),
                            'the format template %s is built at run time: a name or value containing braces (or %%) is interpreted as a replacement '
                            'field and makes the serialisation fail' % ast.unparse(tmpl)[:60])
@@ -380,3 +380,33 @@ def check(ctx, report):
             report.add('C14.R4', f.construct + '@return', '_asdict can fall off its end (returns None)')
     report.floor('C14.R1', 20, 'iteration obligations')
     report.floor('C14.R4', 15, '_asdict overrides')
+
+
+def literal_template(t, fnode, depth=0):
+    """is every value the template expression can take a string literal of the source?  a literal, a conditional expression
+    / ``or`` of literal templates, a local name all of whose bindings in the function are literal templates"""
+    if isinstance(t, ast.Constant):
+        return isinstance(t.value, str)
+    if isinstance(t, ast.IfExp):
+        return literal_template(t.body, fnode, depth) and literal_template(t.orelse, fnode, depth)
+    if isinstance(t, ast.BoolOp):
+        return all(literal_template(v, fnode, depth) for v in t.values)
+    if isinstance(t, ast.Name) and depth < 4:
+        binds, other = [], False
+        for n in ast.walk(fnode):
+            if isinstance(n, ast.Assign):
+                for tg in n.targets:
+                    if isinstance(tg, ast.Name) and tg.id == t.id:
+                        binds.append(n.value)
+                    elif any(isinstance(x, ast.Name) and x.id == t.id for x in ast.walk(tg)):
+                        other = True
+            elif isinstance(n, (ast.AugAssign, ast.AnnAssign)) and isinstance(n.target, ast.Name) and n.target.id == t.id:
+                other = True
+            elif isinstance(n, (ast.For, ast.comprehension)) and any(isinstance(x, ast.Name) and x.id == t.id for x in ast.walk(n.target)):
+                other = True
+            elif isinstance(n, ast.arg) and n.arg == t.id:
+                other = True
+            elif isinstance(n, (ast.With, ast.ExceptHandler, ast.NamedExpr)) and t.id in ast.unparse(n).split(' as ')[-1][:40] and isinstance(n, ast.ExceptHandler) and n.name == t.id:
+                other = True
+        return bool(binds) and not other and all(literal_template(b, fnode, depth + 1) for b in binds)
+    return False
